@@ -123,3 +123,9 @@ pub(crate) fn add_key_to_repo<S>(
 
     Ok(id)
 }
+
+#[cfg(rustic_core_verif)]
+#[allow(missing_docs, unused_imports, dead_code, clippy::all, clippy::pedantic, clippy::nursery)]
+pub mod verif_hooks {
+    use super::*;
+}
